@@ -4,7 +4,7 @@ REF="${1:-HEAD}"; SHIM="${2:-fixed}"
 D=$(mktemp -d /tmp/demo08.XXXX)
 git -C /repo worktree add --detach "$D/wt" "$REF" >/dev/null 2>&1 || { echo "worktree failed"; exit 2; }
 HERE="$(cd "$(dirname "$0")" && pwd)"
-cp "$HERE/demo08_internal_test.go.txt" "$D/wt/proxy/zz_demo08_internal_test.go"
+cp "$HERE/demo08_internal_test.go.txt" "$D/wt/proxy/zz_demo08_internal_test.go"; cp "$HERE/demo08b_internal_test.go.txt" "$D/wt/proxy/zz_demo08b_internal_test.go"
 cp "$HERE/shims_$SHIM.go.txt" "$D/wt/proxy/zz_demo08_shims_test.go"
-(cd "$D/wt" && go test -mod=mod -count=1 -run "${DEMO_RUN:-TestF5_|TestF6_|TestK}" ./proxy/ 2>&1 | grep -v "^20\|^\s*go.temporal\|^\s*/\|^github.com" | tail -40)
+(cd "$D/wt" && go test -mod=mod -count=1 -run "${DEMO_RUN:-TestF5_|TestF6_|TestK|TestF12_}" ./proxy/ 2>&1 | grep -v "^20\|^\s*go.temporal\|^\s*/\|^github.com" | tail -40)
 git -C /repo worktree remove --force "$D/wt"; rm -rf "$D"
